@@ -9,12 +9,11 @@ import (
 
 	"github.com/attestantio/vouch/internal/vnd"
 	nullmetrics "github.com/attestantio/vouch/services/metrics/null"
-	"github.com/rs/zerolog"
 )
 
 // c02New builds the scheduler the way main does: through New.
 func c02New() *Service {
-	s, err := New(context.Background(), WithLogLevel(zerolog.Disabled), WithMonitor(&nullmetrics.Service{}))
+	s, err := New(context.Background(), WithLogLevel(vnd.LogLevel()), WithMonitor(&nullmetrics.Service{}))
 	vnd.Assert(err == nil && s != nil, "C02.new.accepted")
 	return s
 }
